@@ -16,6 +16,10 @@ CLAIMED = {
         technique="deterministic simulation: seeded histories construct -> (fit | fit with estimator-rejected data | evaluate)* on stateful distribution objects and ConditionalDistributions, (family x fixed-subset) grid walked systematically; scipy frozen distributions as reference model",
         text="Seeded exploration of construct/fit/failed-fit/evaluate histories over every family and every non-empty proper subset of fixed parameters, with invariants (fixed value retained, evaluation equals the family's law at the current parameters, fit succeeds for supported subsets, conditional evaluation uses the fixed value at every conditioning value) checked after every step.",
         note="Trusts scipy.stats frozen distributions as the independent statement of each family's law; numerical estimator failures are inconclusive, keyword-translation failures are violations."),
+    "C09": dict(engine="fit", level="exploration", design="DESIGN.md section 3 / C09",
+        technique="deterministic simulation: seeded fit histories (first fit, re-fit, re-fit after injected estimator/slicer/optimiser failure) of a GlobalHierarchicalModel and of a twin receiving one step's rows in another order; stand-alone fits as reference model",
+        text="Seeded exploration of model structures, slicers, per-dimension fit options and fit histories with row permutations; after every successful fit each interval's population is checked against the reported boundaries, each per-interval estimate against a stand-alone fit of a fresh template on exactly that population with that dimension's options, each dependence function against a stand-alone fit on the (reference value, estimate) pairs, and the twin for row-order invariance.",
+        note="Trusts the harness's own sampler (scipy ppf) for data; rows within 1e-9 of an interval edge may fall on either side (edge conventions belong to C10); nonlinear dependence shapes are compared at 1e-3."),
 }
 
 NA = {
